@@ -97,6 +97,27 @@ def p7_plane(pl, c, seg):
             'pix': dx, 'focal': c['z'], 'tilt': []}
 
 
+def seg_tilts(c):
+    """lentil.Tilt(x=a, y=b) arguments per segment such that Field.shift gives the integer chip shifts c['shifts']:
+    row shift = -(y/du_r*os) with y = -z*self.y, self.y = a;  col shift = x/du_c*os with x = -z*self.x, self.x = b"""
+    dur, duc = pair(c['call']['du'], F)
+    z, os = F(c['z']), c['call']['os']
+    return [[str(F(r) * dur / (os * z)), str(-F(cc) * duc / (os * z))] for r, cc in c['shifts']]
+
+
+def p7_tplane(c, only=None):
+    """the segmented pupil with one Tilt per segment; only=k: segment k alone as a monolithic pupil with its tilt"""
+    pl = c['planes'][0]
+    base = p7_plane(pl, c, True)
+    tl = seg_tilts(c)
+    if only is None:
+        base['tilt'] = tl
+    else:
+        base['mask'] = {'a': layers_of(pl)[only]}
+        base['tilt'] = [tl[only]]
+    return base
+
+
 def p7_case(c, seg):
     return {'op': 'chain', 'L': c['Lo'], 'lam': c['wl'], 'wpix': None, 'wfocal': None, 'wtilt': None,
             'planes': [p7_plane(pl, c, seg) for pl in c['planes']], 'insert': None}
@@ -104,7 +125,7 @@ def p7_case(c, seg):
 
 def call_shapes(c):
     call = c['call']
-    if c['op'] == 'seg':
+    if c['op'] in ('seg', 'tseg'):
         lab = c['planes'][-1]['labels']
         wshape = (len(lab), len(lab[0]))
     else:
@@ -204,6 +225,70 @@ def rnd_crop(rng, maxn, maxs):
     return c
 
 
+def rnd_tseg(rng, maxn):
+    """one segmented pupil, a different tilt on every segment, prop_shape < shape: every segment lands in its own
+    shifted chip.  Outer chips mutually disjoint, the chip of one segment bridging them; that segment is listed
+    last in half of the cases, anywhere otherwise"""
+    n, m = rng.randint(3, maxn), rng.randint(3, maxn)
+    k = rng.choice([3, 3, 4])
+    lab = rnd_labels(rng, n, m, k, False)
+    if lab is None:
+        return None
+    os = rng.choice([1, 2])
+    pr, pc = rng.randint(1, 3), rng.randint(1, 3)
+    Pr, Pc = pr * os, pc * os                       # chip size in output samples
+    horiz = rng.random() < 0.5
+    P = Pc if horiz else Pr
+    step = rng.randint(P, 2 * P - 1) if P > 1 else 1      # outer chips: disjoint from each other (>= P apart) ...
+    outs = [step * (i - (k - 2) / 2) for i in range(k - 1)]
+    outs = [int(math.floor(v)) for v in outs]
+    # ... the bridging chip must meet all of them: only possible for two outer chips unless P is large
+    centre = (outs[0] + outs[-1]) // 2
+    across = [rng.randint(-1, 1) for _ in range(k)]
+    shifts = [[across[i], outs[i]] if horiz else [outs[i], across[i]] for i in range(k - 1)]
+    bridge = [0, centre] if horiz else [centre, 0]
+    t = rng.random()
+    if t < 0.5:
+        shifts.append(bridge)
+    else:
+        shifts.insert(rng.randrange(k), bridge)
+    span = abs(outs[-1] - outs[0]) + P + 2
+    S = [max(pr + 1, rng.randint(2, 4)), (span + os - 1) // os + rng.randint(0, 1)]
+    if not horiz:
+        S = [S[1], S[0]]
+    if rng.random() < 0.6:
+        amp = {'a': [[P7.rnd_gauss(rng) for _ in range(m)] for _ in range(n)]}
+    else:
+        amp = {'s': rng.choice(P7.GAUSS)}
+    Lo = rng.choice([1, 2, 4])
+    opd = {'s': 0} if Lo == 1 else {'a': [[rng.randint(-Lo, 2 * Lo) for _ in range(m)] for _ in range(n)]}
+    du = rng.choice(['1/4', '1/2', '1'])
+    return {'op': 'tseg', 'Lo': Lo, 'wl': rng.choice(['1/2', '1/4', '1']), 'z': rng.choice(['1', '2', '4']),
+            'dx': rng.choice(DYAD[:3]), 'planes': [{'amp': amp, 'opd': opd, 'labels': lab, 'k': k}], 'shifts': shifts,
+            'call': {'du': du, 'shape': S, 'prop_shape': [pr, pc], 'os': os}}
+
+
+def chip_kind(c):
+    """do the chips of a tseg case contain a field that bridges two earlier, mutually disjoint ones?"""
+    S, P = call_shapes(c)
+    os = c['call']['os']
+    Ro, Co, Pr, Pc = S[0] * os, S[1] * os, P[0] * os, P[1] * os
+    es = []
+    for r, cc in c['shifts']:
+        e = (max(-(Pr // 2) + r, -(Ro // 2)), min(-(Pr // 2) + r + Pr - 1, -(Ro // 2) + Ro - 1),
+             max(-(Pc // 2) + cc, -(Co // 2)), min(-(Pc // 2) + cc + Pc - 1, -(Co // 2) + Co - 1))
+        es.append(e if e[0] <= e[1] and e[2] <= e[3] else None)
+
+    def meet(a, b):
+        return a and b and a[0] <= b[1] and b[0] <= a[1] and a[2] <= b[3] and b[2] <= a[3]
+    for k in range(2, len(es)):
+        for i in range(k):
+            for j in range(i + 1, k):
+                if es[i] and es[j] and not meet(es[i], es[j]) and meet(es[k], es[i]) and meet(es[k], es[j]):
+                    return 'late-bridge'
+    return 'plain'
+
+
 def special(c):
     """finding classes (box arithmetic of c07.chain_boxes on both descriptions)"""
     if c['op'] != 'seg':
@@ -215,7 +300,7 @@ def special(c):
 
 def generate(rng, tier):
     quick = tier == 'quick'
-    n_seg, n_crop = (70, 25) if quick else (700, 200)
+    n_seg, n_crop = (70, 25) if quick else (1200, 300)
     maxn = 6 if quick else 10
     maxs = 5 if quick else 7
     Lmax = 48 if quick else 64
@@ -236,6 +321,20 @@ def generate(rng, tier):
             n_find += 1
         out += 1
         yield c
+    out = tries = 0
+    n_t = 30 if quick else 400
+    while out < n_t and tries < 100000:
+        tries += 1
+        c = rnd_tseg(rng, 5 if quick else 7)
+        if c is None:
+            continue
+        ar, ac, ok = alphas(c)
+        if not ok or case_L(c) > Lmax or abs(ar) > 2 or abs(ac) > 2:
+            continue
+        if P7.chain_boxes(p7_case(c, True))['one_element']:
+            continue
+        out += 1
+        yield c
     out = 0
     while out < n_crop:
         c = rnd_crop(rng, maxn, maxs)
@@ -249,12 +348,16 @@ def generate(rng, tier):
 def classify(c):
     if c['op'] == 'crop':
         return 'crop'
+    if c['op'] == 'tseg':
+        return 'tseg/' + chip_kind(c)
     return 'seg/' + '-'.join(str(pl['k']) for pl in c['planes']) + ('/opd' if c['Lo'] > 1 else '')
 
 
 def nontrivial(c):
     if c['op'] == 'crop':
         return len(c['variants'][-1]) > 1
+    if c['op'] == 'tseg':
+        return True
     for pl in c['planes']:
         segs = [[[v == q for v in row] for row in pl['labels']] for q in range(pl['k'])]
         bbs = [P7.bbox(s) for s in segs]
@@ -286,6 +389,8 @@ def encode(c):
             for pl in c['planes']:
                 out += P7.enc_plane(p7_plane(pl, c, seg), c['Lo'], lam)
         return out + enc_call(c)
+    if c['op'] == 'tseg':
+        return [4, L] + C.enc_q(lam) + [1] + P7.enc_plane(p7_tplane(c), c['Lo'], lam) + enc_call(c)
     dxr, dxc = pair(c['dx'], lambda v: float(F(v)))
     out = [2, L] + C.enc_q(lam) + C.enc_q(dxr) + C.enc_q(dxc) + C.enc_q(float(F(c['z']))) + P7.enc_carr(c['g'])
     out += [len(c['variants'])]
@@ -325,6 +430,13 @@ def decode(c, ints):
                         'post': read_views(rd, L, sc)})
         assert rd.done()
         return {'seg': res[0], 'mono': res[1]}
+    if c['op'] == 'tseg':
+        st = rd.z()
+        if st == 1:
+            return {'seg': {'err': C.ERRNAMES[rd.z()]}}
+        r = {'pre_field': P7.read_fdata(rd, L), 'pre_intensity': P7.read_fdata(rd, L), 'post': read_views(rd, L, sc)}
+        assert rd.done()
+        return {'seg': r}
     res = {'variants': rd.lst(lambda: read_views(rd, L, sc))}
     assert rd.done()
     return res
@@ -361,6 +473,17 @@ def run_impl(c):
     lentil = C.import_lentil()
     if c['op'] == 'seg':
         return {'seg': run_variant(lentil, c, True), 'mono': run_variant(lentil, c, False)}
+    if c['op'] == 'tseg':
+        lam = F(c['wl'])
+
+        def one(only):
+            try:
+                w = lentil.Wavefront(wavelength=float(lam)) * P7.mk_plane(p7_tplane(c, only), c['Lo'], lam)
+            except Exception as e:
+                return {'err': type(e).__name__}
+            return {'pre_field': P7.view(lambda: w.field), 'pre_intensity': P7.view(lambda: w.intensity),
+                    'post': do_call(lentil, w, c)}
+        return {'seg': one(None), 'parts': [one(k) for k in range(c['planes'][0]['k'])]}
     g = P7.np_carr(c['g'])
     out = []
     dx = pair(c['dx'], lambda v: float(F(v)))
@@ -387,8 +510,8 @@ def cmp_post(a, b, what):
 
 
 def compare(c, impl, model):
-    if c['op'] == 'seg':
-        for key in ('seg', 'mono'):
+    if c['op'] in ('seg', 'tseg'):
+        for key in (('seg', 'mono') if c['op'] == 'seg' else ('seg',)):
             a, b = impl[key], model[key]
             if ('err' in a) or ('err' in b):
                 if a.get('err') != b.get('err'):
@@ -426,7 +549,42 @@ def coherent(fv, iv, what):
     return None
 
 
+def oracle_tseg(c, impl):
+    a = impl['seg']
+    if 'err' in a:
+        return f'the segmented pupil raised {a["err"]}'
+    pa = a['post']
+    if 'err' in pa:
+        return f'propagation of the segmented pupil raised {pa["err"]}'
+    m = coherent(pa['field'], pa['intensity'], 'segmented pupil with per-segment tilts')
+    if m:
+        return m
+    tot = None
+    for k, p in enumerate(impl['parts']):
+        if 'err' in p or 'err' in p['post']:
+            return f'segment {k} alone raised'
+        f = np.array(p['post']['field']['arr'], dtype=complex)
+        tot = f if tot is None else tot + f
+    got = np.array(pa['field']['arr'], dtype=complex)
+    if got.shape != tot.shape:
+        return 'shapes of the segmented and the single-segment propagations differ'
+    mx = float(np.max(np.abs(tot))) if tot.size else 0.0
+    d = np.abs(got - tot)
+    if d.size and float(d.max()) > TOL * (1 + mx):
+        i = np.unravel_index(int(np.argmax(d)), d.shape)
+        return f'field of the segmented pupil differs from the sum of the single-segment propagations at {tuple(int(x) for x in i)}: {got[i]} vs {tot[i]}'
+    inten = np.array(pa['intensity']['arr'], dtype=complex).real
+    d = np.abs(inten - np.abs(tot) ** 2)
+    if d.size and float(d.max()) > TOL * (1 + mx * mx):
+        i = np.unravel_index(int(np.argmax(d)), d.shape)
+        return (f'intensity[{int(i[0])},{int(i[1])}] = {inten[i]} of the segmented pupil is not |sum of the single-segment fields|^2 = '
+                f'{abs(tot[i]) ** 2} (chips that land on the same samples must add as complex amplitudes)')
+    return None
+
+
 def oracle(c, impl):
+    if c['op'] == 'tseg':
+        return oracle_tseg(c, impl)
     if c['op'] == 'seg':
         a, b = impl['seg'], impl['mono']
         if 'err' in b:
